@@ -56,6 +56,7 @@ def main (args : List String) : IO UInt32 := do
   | ["dmamon"] => foldLines i o none drvDmaMon; return 0
   | ["portmon"] => foldLines i o none drvPortMon; return 0
   | ["phy"] => foldLines i o none drvPhy; return 0
+  | ["adram"] => foldLines i o none drvADram; return 0
   | ["drammon"] => foldLines i o none drvDramMon; return 0
   | ["timingmon"] => foldLines i o none drvTimingMon; return 0
   | ["core"] => foldLines i o none drvCore; return 0
